@@ -16,7 +16,8 @@
    [assertion_fails prog fin] = nothing flushed, bodiless status, write() called (a handler error). *)
 From Coq Require Import List NArith Bool.
 Import ListNotations.
-From TV Require Import Lib.Obs C29.Model C29.Run C29.Proofs1 C29.Proofs4 C29.Proofs5 Gen.C29_src Gen.C29_equiv.
+From TV Require C02.Model.
+From TV Require Import Lib.Obs C29.Model C29.Run C29.Proofs1 C29.Proofs4 C29.Proofs5 Gen.C29_src Gen.C29_equiv C29.ModelP4 C29.ProofsP4.
 
 (* Transparency: for EVERY codec satisfying the round-trip hypothesis, every Accept-Encoding and every
    program of status/header operations, writes and flushes in which the handler does not set a
@@ -154,3 +155,38 @@ Proof.
         (conj src_vary_step_eq (conj src_ctype_eq src_decision_eq)))))).
 Qed.
 Print Assumptions C29_decision_logic_is_the_source's.
+
+(* ---------- phase 4: the ETag / If-None-Match block of finish() ([run_etag], ModelP4.v) ----------
+   [etag_applies prog]: nothing flushed, status 200, no Etag set by the handler (then finish() computes one).
+   [sha] is SHA-1 (hex), a parameter. *)
+
+(* The ETag is computed over the bytes the handler WROTE (finish() hashes _write_buffer before flush()
+   runs the transforms): the header block carries exactly that tag for every Accept-Encoding,
+   compress_response setting and If-None-Match ... *)
+Theorem C29_etag_is_of_the_uncompressed_bytes :
+  forall c e, is_head e = false -> forall sha inm prog fin, etag_applies prog = true ->
+    etag_of (run_etag c e sha inm prog fin) = [quote (sha (writes prog ++ fin_bytes fin))].
+Proof. exact etag_uncompressed. Qed.
+Print Assumptions C29_etag_is_of_the_uncompressed_bytes.
+
+(* ... so it is the same with and without gzip. *)
+Theorem C29_etag_same_with_and_without_gzip :
+  forall c ae1 ae2 cp1 cp2 sha inm prog fin, etag_applies prog = true ->
+    etag_of (run_etag c {| is_head := false; accept_enc := ae1; compress := cp1 |} sha inm prog fin)
+    = etag_of (run_etag c {| is_head := false; accept_enc := ae2; compress := cp2 |} sha inm prog fin).
+Proof. exact etag_same_with_and_without_gzip. Qed.
+Print Assumptions C29_etag_same_with_and_without_gzip.
+
+(* When If-None-Match matches that tag, the response is a 304 that is never encoded: no
+   Content-Encoding, no Content-Type, no body byte (whatever was written), Vary still lists
+   Accept-Encoding when the transform is configured. *)
+Theorem C29_etag_304_is_never_encoded_and_has_no_body :
+  forall c e, is_head e = false -> forall sha inm prog fin,
+    etag_applies prog = true ->
+    C02.Model.etag_matches (quote (sha (writes prog ++ fin_bytes fin))) (inm_value inm) = true ->
+    exists r, outcome_of (run_etag c e sha inm prog fin) = Resp r /\
+              r_status r = 304%N /\ r_ce r = [] /\ r_ct r = [] /\ concat (r_sent r) = [] /\
+              (compress e = true -> vary_mentions_ae (r_vary r) = true) /\
+              etag_of (run_etag c e sha inm prog fin) = [quote (sha (writes prog ++ fin_bytes fin))].
+Proof. exact etag_304_resp. Qed.
+Print Assumptions C29_etag_304_is_never_encoded_and_has_no_body.
